@@ -1431,11 +1431,28 @@ where
 			if let Some(k) = kernel {
 				debug!("Kernel Retrieved: {:?}", k);
 				wallet_lock!(wallet_inst, w);
-				let mut batch = w.batch(keychain_mask)?;
-				tx.confirmed = true;
-				tx.update_confirmation_ts();
-				batch.save_tx_log_entry(tx.clone(), parent_key_id)?;
-				batch.commit()?;
+				// The node was asked without the wallet lock: confirm the entry as it is
+				// now, and only if it is still waiting for confirmation (it may have been
+				// cancelled in the meantime; writing back the copy read earlier would undo
+				// that)
+				let current = updater::retrieve_txs(
+					&mut **w,
+					Some(tx.id),
+					None,
+					None,
+					Some(parent_key_id),
+					true,
+				)?;
+				if let Some(mut cur) = current.into_iter().next() {
+					if cur.tx_slate_id == tx.tx_slate_id && cur.kernel_excess == tx.kernel_excess {
+						let mut batch = w.batch(keychain_mask)?;
+						cur.confirmed = true;
+						cur.update_confirmation_ts();
+						batch.save_tx_log_entry(cur.clone(), parent_key_id)?;
+						batch.commit()?;
+						*tx = cur;
+					}
+				}
 			}
 		} else {
 			warn!("Attempted to update via kernel excess for transaction {:?}, but kernel excess was not stored", tx.tx_slate_id);
